@@ -624,7 +624,50 @@ func checkFanOut(c *Ctx, p *core.Prog) {
 		return
 	}
 	filenames := fn.Params[2]
-	// (a) exactly one go statement inside the loop over filenames, with that iteration's element
+	// (a) exactly one task is started inside the loop over filenames, with that iteration's element: a go statement
+	// there, or a call of a starter helper of the package (it takes the task as a func() and runs it on a goroutine of its
+	// own - the worker pool split off into a type)
+	isIterFile := func(v ssa.Value) bool {
+		v = core.Unspill(v)
+		if ld, ok := v.(*ssa.UnOp); ok {
+			if ia, ok := ld.X.(*ssa.IndexAddr); ok && ia.X == filenames && ascendingIndex(ia.Index) {
+				return true
+			}
+			// a per-iteration copy (filename := filename): a cell that is stored the iteration's element once
+			if al, ok := ld.X.(*ssa.Alloc); ok {
+				n, good := 0, true
+				for _, r := range *al.Referrers() {
+					if st, ok := r.(*ssa.Store); ok && st.Addr == ssa.Value(al) {
+						n++
+						if sl, ok := core.Unspill(st.Val).(*ssa.UnOp); !ok {
+							good = false
+						} else if ia, ok := sl.X.(*ssa.IndexAddr); !ok || ia.X != filenames || !ascendingIndex(ia.Index) {
+							good = false
+						}
+					}
+				}
+				return n == 1 && good
+			}
+		}
+		return false
+	}
+	// the cell itself (a closure binds the variable, not its value)
+	isIterFileCell := func(v ssa.Value) bool {
+		al, ok := v.(*ssa.Alloc)
+		if !ok {
+			return false
+		}
+		n, good := 0, true
+		for _, r := range *al.Referrers() {
+			if st, ok := r.(*ssa.Store); ok && st.Addr == ssa.Value(al) {
+				n++
+				if !isIterFile(st.Val) {
+					good = false
+				}
+			}
+		}
+		return n == 1 && good
+	}
 	var gos []*ssa.Go
 	for _, b := range fn.Blocks {
 		for _, in := range b.Instrs {
@@ -633,25 +676,96 @@ func checkFanOut(c *Ctx, p *core.Prog) {
 			}
 		}
 	}
-	var spawn *ssa.Go
+	var spawn ssa.Instruction // the go statement (in ClassifyLicenses or in the starter helper)
+	var spawnAt ssa.Instruction
+	var taskFn *ssa.Function
+	nSpawn := 0
 	for _, g := range gos {
-		if len(g.Call.Args) >= 1 {
-			a := g.Call.Args[len(g.Call.Args)-1]
-			if ld, ok := a.(*ssa.UnOp); ok {
-				if ia, ok := ld.X.(*ssa.IndexAddr); ok && ia.X == filenames && ascendingIndex(ia.Index) {
-					if spawn != nil {
-						c.R.Fail("R19.4", "ClassifyLicenses: one task per file", p.Pos(g.Pos()), "more than one task is spawned per file")
+		if len(g.Call.Args) >= 1 && isIterFile(g.Call.Args[len(g.Call.Args)-1]) {
+			nSpawn++
+			spawn, spawnAt = g, g
+			taskFn = eng.ResolveCallee(g.Call.Value)
+		}
+	}
+	for _, call := range core.CallsIn(fn) {
+		cv, ok := call.(*ssa.Call)
+		starter := call.Common().StaticCallee()
+		if !ok || starter == nil || core.FuncPkgPath(starter) != backendPkg || len(starter.Blocks) == 0 {
+			continue
+		}
+		// an argument that is a closure binding the iteration's file
+		var taskArg *ssa.MakeClosure
+		argIdx := -1
+		for i, a := range cv.Call.Args {
+			if mc, ok := a.(*ssa.MakeClosure); ok {
+				for _, bnd := range mc.Bindings {
+					if isIterFile(bnd) || isIterFileCell(bnd) {
+						taskArg, argIdx = mc, i
 					}
-					spawn = g
 				}
 			}
 		}
+		if taskArg == nil || argIdx >= len(starter.Params) {
+			continue
+		}
+		// the starter runs its parameter exactly once, on a goroutine it starts
+		prm := starter.Params[argIdx]
+		var sgo *ssa.Go
+		nCalls := 0
+		for _, f := range core.WithAnon(starter) {
+			for _, c2 := range core.CallsIn(f) {
+				v := c2.Common().Value
+				if fv, ok := v.(*ssa.FreeVar); ok {
+					if cell := boundCell(fv); cell == ssa.Value(prm) {
+						nCalls++
+					}
+				}
+				if v == ssa.Value(prm) {
+					nCalls++
+				}
+				// the parameter captured by the goroutine's closure: a load of the cell it was spilled to
+				if ld, ok := v.(*ssa.UnOp); ok && ld.Op == token.MUL {
+					var cell ssa.Value = ld.X
+					if fv, ok := ld.X.(*ssa.FreeVar); ok {
+						cell = boundCell(fv)
+					}
+					if al, ok := cell.(*ssa.Alloc); ok {
+						nSt, isPrm := 0, false
+						for _, r := range *al.Referrers() {
+							if st, ok := r.(*ssa.Store); ok && st.Addr == ssa.Value(al) {
+								nSt++
+								isPrm = st.Val == ssa.Value(prm)
+							}
+						}
+						if nSt == 1 && isPrm {
+							nCalls++
+						}
+					}
+				}
+			}
+		}
+		for _, b := range starter.Blocks {
+			for _, in := range b.Instrs {
+				if g, ok := in.(*ssa.Go); ok {
+					sgo = g
+				}
+			}
+		}
+		if sgo == nil || nCalls != 1 {
+			continue
+		}
+		nSpawn++
+		spawn, spawnAt = sgo, cv
+		taskFn = eng.ResolveCallee(sgo.Call.Value)
+	}
+	if nSpawn > 1 {
+		c.R.Fail("R19.4", "ClassifyLicenses: one task per file", p.Pos(spawnAt.Pos()), "more than one task is spawned per file")
 	}
 	if spawn == nil {
 		c.R.Fail("R19.4", "ClassifyLicenses: one task per file", p.Pos(fn.Pos()), "no `go task(filenames[i])` with i the index of the loop over filenames: some file is analysed zero or several times")
 		return
 	}
-	c.R.OK("R19.4", "ClassifyLicenses: each iteration over filenames spawns one task with that iteration's file name", p.Pos(spawn.Pos()), "go analyze(filenames[i]) with i the ascending loop index")
+	c.R.OK("R19.4", "ClassifyLicenses: each iteration over filenames spawns one task with that iteration's file name", p.Pos(spawnAt.Pos()), "go analyze(filenames[i]) with i the ascending loop index (directly or through a starter helper that runs its task once on a new goroutine)")
 	// token taken and wg.Add before the spawn, in the same iteration
 	var recvTok, add ssa.Instruction
 	for _, in := range spawn.Block().Instrs {
@@ -665,7 +779,7 @@ func checkFanOut(c *Ctx, p *core.Prog) {
 	c.R.Check(recvTok != nil && instrBeforeI(recvTok, spawn), "R19.4", "ClassifyLicenses: a pool token is taken before each spawn", p.Pos(spawn.Pos()), "<-task precedes the go statement in the loop body", "the spawn is not preceded by taking a token: -tasks no longer bounds concurrency")
 	c.R.Check(add != nil && instrBeforeI(add, spawn), "R19.4", "ClassifyLicenses: wg.Add precedes each spawn", p.Pos(spawn.Pos()), "wg.Add(1) precedes the go statement", "wg.Add is not called before the task starts: Wait can return early")
 	// (b) the task returns its token in a deferred call, before wg.Done; the channel is closed only after wg.Wait
-	task := eng.ResolveCallee(spawn.Call.Value)
+	task := taskFn
 	okTok, why := false, "the task has no deferred function that returns the token"
 	if task != nil {
 		for _, in := range task.Blocks[0].Instrs {
@@ -702,7 +816,11 @@ func checkFanOut(c *Ctx, p *core.Prog) {
 	}
 	c.R.Check(okTok, "R19.4", "ClassifyLicenses: each task returns its token before signalling completion", p.Pos(spawn.Pos()), why, why)
 	// close(task) only after wg.Wait in the same goroutine
-	for _, f := range core.WithAnon(fn) {
+	var closers []*ssa.Function
+	for _, f := range pkgFuncs(p, backendPkg) {
+		closers = append(closers, core.WithAnon(f)...)
+	}
+	for _, f := range closers {
 		for _, b := range f.Blocks {
 			for _, in := range b.Instrs {
 				call, ok := in.(*ssa.Call)
@@ -715,6 +833,9 @@ func checkFanOut(c *Ctx, p *core.Prog) {
 						if core.StaticCalleeName(w.Common()) == "(*sync.WaitGroup).Wait" && instrBeforeI(w, call) {
 							waited = true
 						}
+					}
+					if !waited {
+						waited = calledOnlyAfterWait(p, f)
 					}
 					c.R.Check(waited, "R19.4", core.ShortFn(f)+": close of "+eng.Describe(call.Call.Args[0])+" follows wg.Wait", p.Pos(call.Pos()), "wg.Wait() dominates the close", "a channel is closed while tasks may still send on it")
 				}
@@ -737,6 +858,67 @@ func checkFanOut(c *Ctx, p *core.Prog) {
 		}
 	}
 	c.R.Check(okCap, "R19.4", "ClassifyLicenses: the error channel has room for one error per file", p.Pos(fn.Pos()), "make(chan error, len(filenames))", "the error channel is smaller than the number of files: a task blocks on reporting its error while the collector waits for the channel to be closed")
+}
+
+// calledOnlyAfterWait: f is a closure that is handed as a func() argument to a helper of the package, and the helper (or
+// the goroutine it starts) calls that parameter only behind a wg.Wait() of the same function.
+func calledOnlyAfterWait(p *core.Prog, f *ssa.Function) bool {
+	parent := f.Parent()
+	if parent == nil {
+		return false
+	}
+	n := 0
+	for _, call := range core.CallsIn(parent) {
+		h := call.Common().StaticCallee()
+		if h == nil || core.FuncPkgPath(h) != backendPkg || len(h.Blocks) == 0 {
+			continue
+		}
+		for i, a := range call.Common().Args {
+			mc, ok := a.(*ssa.MakeClosure)
+			if !ok || mc.Fn != ssa.Value(f) || i >= len(h.Params) {
+				continue
+			}
+			prm := h.Params[i]
+			okAll, calls := true, 0
+			for _, g := range core.WithAnon(h) {
+				for _, c2 := range core.CallsIn(g) {
+					v := c2.Common().Value
+					isPrm := v == ssa.Value(prm)
+					if ld, ok := v.(*ssa.UnOp); ok && ld.Op == token.MUL {
+						var cell ssa.Value = ld.X
+						if fv, ok := ld.X.(*ssa.FreeVar); ok {
+							cell = boundCell(fv)
+						}
+						if al, ok := cell.(*ssa.Alloc); ok {
+							for _, r := range *al.Referrers() {
+								if st, ok := r.(*ssa.Store); ok && st.Addr == ssa.Value(al) && st.Val == ssa.Value(prm) {
+									isPrm = true
+								}
+							}
+						}
+					}
+					if !isPrm {
+						continue
+					}
+					calls++
+					waited := false
+					for _, w := range core.CallsIn(g) {
+						if core.StaticCalleeName(w.Common()) == "(*sync.WaitGroup).Wait" && instrBeforeI(w, c2.(ssa.Instruction)) {
+							waited = true
+						}
+					}
+					if !waited {
+						okAll = false
+					}
+				}
+			}
+			if calls == 0 || !okAll {
+				return false
+			}
+			n++
+		}
+	}
+	return n > 0
 }
 
 func isFatal(call ssa.CallInstruction) bool {
